@@ -53,6 +53,10 @@ def confirm(sd):
         res["existing_tests_pass"] = rc == 0
         if rc != 0:
             res["existing_tests_output"] = out[-3000:]
+        if not os.path.exists(demo):
+            res["demo"] = "none (revert of a fix commit: the pre-fix behaviour is the demonstration, see the commit message)"
+            res["demo_fails_with_change"] = res["demo_passes_without_change"] = True
+            return res
         shutil.copy(demo, os.path.join(wt, dirs[0], "zz_seeded_demo_test.go"))
         rc, out = sh("go test -vet=off -count=1 -run 'TestSeeded' ./%s/" % dirs[0], cwd=wt)
         res["demo_fails_with_change"] = rc != 0
@@ -105,6 +109,15 @@ def run_check(prop, sd, extra_props=()):
 
 def one(prop, n, src=None, extra=()):
     sd = os.path.join(VERIF, "seeded", "%s_%s" % (prop, n))
+    if src and src.startswith("revert:"):
+        # revert of a fix commit of /repo: the reverse diff of that commit
+        commit = src.split(":", 1)[1]
+        os.makedirs(sd, exist_ok=True)
+        rc, out = sh("git -C /repo diff %s %s^ -- ." % (commit, commit))
+        open(os.path.join(sd, "patch.diff"), "w").write(out)
+        rc, msg = sh("git -C /repo log --format=%%s -1 %s" % commit)
+        open(os.path.join(sd, "description.txt"), "w").write("Revert of %s (%s)\n" % (commit, msg.strip()))
+        src = None
     if src:
         os.makedirs(sd, exist_ok=True)
         shutil.copy(src + ".diff", os.path.join(sd, "patch.diff"))
@@ -114,7 +127,8 @@ def one(prop, n, src=None, extra=()):
     meta = json.load(open(meta_path)) if os.path.exists(meta_path) else {}
     meta.update({"property": prop, "seed": "%s_%s" % (prop, n),
                  "description": open(os.path.join(sd, "description.txt")).read().strip().splitlines()[0],
-                 "origin": "fresh sub-agent given only the property text and a scratch worktree"})
+                 "origin": ("revert of a fix commit made during this work (regression seed)" if not os.path.exists(os.path.join(sd, "demo_test.go"))
+                            else "fresh sub-agent given only the property text and a scratch worktree")})
     meta["confirmation"] = confirm(sd)
     c = meta["confirmation"]
     ok = c.get("applies") and c.get("builds") and c.get("existing_tests_pass") and c.get("demo_fails_with_change") and c.get("demo_passes_without_change")
